@@ -122,7 +122,62 @@ macro_rules! asgop4 {
     };
 }
 
+/// constant described by (w = words, pat = pattern number, salt, s = sign) instead of bytes: keeps
+/// generated case files small; the bytes are logged with the step like any other value
+pub fn compact_const(s: &Value) -> Value {
+    let w = us(s, "w");
+    let mut rng = Rng::new(us(s, "salt") as u64 + 1);
+    let bytes = pattern_bytes(&mut rng, w * WORD_BYTES, us(s, "pat") as u64);
+    json!({"s": if us(s, "s") == 1 && !bytes.is_empty() { 1 } else { 0 }, "m": bytes})
+}
+fn push_num(out: &mut String, mut n: u64) {
+    if n == 0 {
+        out.push('0');
+        return;
+    }
+    let mut buf = [0u8; 20];
+    let mut i = 20;
+    while n > 0 {
+        i -= 1;
+        buf[i] = b'0' + (n % 10) as u8;
+        n /= 10;
+    }
+    for b in &buf[i..] {
+        out.push(*b as char);
+    }
+}
+/// hand-written JSON of an integer value and its hook triple (fast path of the Miri runs)
+pub fn push_int_obs(out: &mut String, neg: bool, words: &[Word], t: (bool, usize, usize, bool, usize), stat: bool) {
+    out.push_str("\"v\":{\"s\":");
+    out.push(if neg { '1' } else { '0' });
+    out.push_str(",\"m\":[");
+    let bytes = words_to_bytes(words);
+    for (i, b) in bytes.iter().enumerate() {
+        if i > 0 {
+            out.push(',');
+        }
+        push_num(out, *b as u64);
+    }
+    out.push_str("]},\"t\":[{\"neg\":");
+    out.push_str(if t.0 { "true" } else { "false" });
+    out.push_str(",\"cap\":");
+    push_num(out, t.1 as u64);
+    out.push_str(",\"len\":");
+    push_num(out, t.2 as u64);
+    out.push_str(",\"heap\":");
+    out.push_str(if t.3 { "true" } else { "false" });
+    out.push_str(",\"ptr\":");
+    push_num(out, (crate::ptr_id)(t.4) as u64);
+    out.push_str(",\"st\":");
+    out.push_str(if stat { "true" } else { "false" });
+    out.push_str("}]");
+}
+
 pub trait Pool {
+    /// appends `"v":{..},"t":[..]` of register d as text
+    fn obs_text(&self, _d: usize, _out: &mut String) {
+        panic!("harness: text observations exist for the integer pools only")
+    }
     fn nr(&self) -> usize;
     /// executes one producer; panics of the library propagate to the caller's `guarded`
     fn exec(&mut self, s: &Value);
@@ -227,7 +282,9 @@ macro_rules! int_pool {
                 let (op, d, a, b, n, f) = (st(s, "op"), us(s, "d"), us(s, "a"), us(s, "b"), us(s, "n"), st(s, "f"));
                 match op {
                     "const" => {
-                        let v = int_const!($is_signed, &s["c"], f);
+                        // either explicit bytes "c" or a compact description (w words, pattern, salt)
+                        let c = if s.get("c").is_some() { s["c"].clone() } else { compact_const(s) };
+                        let v = int_const!($is_signed, &c, f);
                         self.set(d, v);
                     }
                     "static" => {
@@ -263,25 +320,26 @@ macro_rules! int_pool {
                         }
                         "ar" => {
                             // x op= &y ; with y == x this is the self-assignment pattern x op= &x.clone()
-                            self.own_copy(d, a);
                             let y = self.val(b).clone();
+                            self.own_copy(d, a);
                             let x = self.own_mut(d);
                             asgop!(op, x, &y);
                         }
                         "av" => {
-                            self.own_copy(d, a);
                             let y = self.val(b).clone();
+                            self.own_copy(d, a);
                             let x = self.own_mut(d);
                             asgop!(op, x, y);
                         }
                         "ap" => {
                             // x op= &y without an intermediate clone of y (y must be another register)
-                            self.own_copy(d, a);
                             if b == d {
                                 let y = self.val(b).clone();
+                                self.own_copy(d, a);
                                 let x = self.own_mut(d);
                                 asgop!(op, x, &y);
                             } else {
+                                self.own_copy(d, a);
                                 let (lo, hi) = self.regs.split_at_mut(d.max(b) - 1);
                                 let (x, y) = if d < b { (&mut lo[d - 1], &hi[0]) } else { (&mut hi[0], &lo[b - 1]) };
                                 let x = match x {
@@ -325,14 +383,19 @@ macro_rules! int_pool {
                         self.set(d, r);
                     }
                     "clonefrom" => {
-                        if self.regs[d - 1].is_static() {
-                            self.set(d, <$T>::ZERO);
-                        }
+                        // a destination built from static words must not be written to: it is replaced by an
+                        // owned zero first (the static value itself stays untouched)
                         if a == d {
                             // x.clone_from(&x.clone())
                             let t = self.val(a).clone();
+                            if self.regs[d - 1].is_static() {
+                                self.set(d, <$T>::ZERO);
+                            }
                             self.own_mut(d).clone_from(&t);
                         } else {
+                            if self.regs[d - 1].is_static() {
+                                self.set(d, <$T>::ZERO);
+                            }
                             let (lo, hi) = self.regs.split_at_mut(d.max(a) - 1);
                             let (x, y) = if d < a { (&mut lo[d - 1], &hi[0]) } else { (&mut hi[0], &lo[a - 1]) };
                             match x {
@@ -397,6 +460,18 @@ macro_rules! int_pool {
             fn obs_lite(&self, d: usize) -> Value {
                 json!({"v": Self::enc(self.val(d)), "t": [self.tri(d)]})
             }
+            fn obs_text(&self, d: usize, out: &mut String) {
+                #[cfg(dashu_verif)]
+                {
+                    let x = self.val(d);
+                    let (neg, words) = int_sign_words!($is_signed, x);
+                    push_int_obs(out, neg, words, x.verif_repr(), self.regs[d - 1].is_static());
+                }
+                #[cfg(not(dashu_verif))]
+                {
+                    let _ = (d, out);
+                }
+            }
             fn fin_lite(&self) -> Value {
                 let nr = self.nr();
                 json!({
@@ -408,6 +483,15 @@ macro_rules! int_pool {
     };
 }
 
+macro_rules! int_sign_words {
+    (false, $x:expr) => {
+        (false, $x.as_words())
+    };
+    (true, $x:expr) => {{
+        let (s, w) = $x.as_sign_words();
+        (s == Sign::Negative, w)
+    }};
+}
 macro_rules! int_enc {
     (false, $x:expr) => {
         enc_u($x)
@@ -1163,6 +1247,7 @@ pub fn run_history_opt(case: &Value, window: &mut dyn FnMut(&mut dyn FnMut()) ->
             }
         }
         o["al"] = al;
+        o["op"] = s["op"].clone();
         obs.push(o);
     }
     let fin = if lite { pool.fin_lite() } else { pool.fin() };
@@ -1178,6 +1263,61 @@ pub fn run_history_opt(case: &Value, window: &mut dyn FnMut(&mut dyn FnMut()) ->
         ev["fault"] = json!(true);
     }
     ev
+}
+
+/// The same as run_history for the integer pools, writing the event line by hand: the case line
+/// is echoed and `obs`, `fin`, `alend`, `noalloc` are appended.  Used for the Miri runs, where
+/// building and serialising serde_json trees would dominate the interpreted run time.
+pub fn run_history_text(raw_line: &str, case: &Value, extra: &str) -> (String, bool) {
+    let kind = case["pool"].as_str().unwrap_or("U");
+    let nr = case["nr"].as_u64().unwrap_or(4) as usize;
+    let mut pool = make_pool(kind, nr);
+    let mut out = String::with_capacity(raw_line.len() + 4096);
+    let body = raw_line.trim_end();
+    out.push_str(&body[..body.len() - 1]); // without the closing brace
+    out.push_str(",\"obs\":[");
+    let mut fault = false;
+    for (i, s) in case["steps"].as_array().map(|a| a.as_slice()).unwrap_or(&[]).iter().enumerate() {
+        let d = us(s, "d");
+        let res = guarded(|| pool.exec(s));
+        if i > 0 {
+            out.push(',');
+        }
+        out.push('{');
+        pool.obs_text(d, &mut out);
+        match res {
+            Ok(()) => out.push_str(",\"k\":\"ok\""),
+            Err(m) => {
+                fault |= m.starts_with("harness:");
+                out.push_str(",\"k\":\"panic\",\"msg\":");
+                out.push_str(&serde_json::to_string(&m).unwrap());
+            }
+        }
+        out.push_str(",\"al\":[]}");
+    }
+    out.push_str("],\"fin\":{\"v\":[");
+    let mut vs = String::new();
+    let mut ts = String::new();
+    for r in 1..=nr {
+        // obs_text writes "v":{...},"t":[...] ; split it into the two arrays of `fin`
+        let mut one = String::new();
+        pool.obs_text(r, &mut one);
+        let cut = one.find(",\"t\":").expect("harness: obs_text layout");
+        if r > 1 {
+            vs.push(',');
+            ts.push(',');
+        }
+        vs.push_str(&one[4..cut]);
+        ts.push_str(&one[cut + 5..]);
+    }
+    out.push_str(&vs);
+    out.push_str("],\"t\":[");
+    out.push_str(&ts);
+    out.push_str("]},\"alend\":[],\"noalloc\":true");
+    out.push_str(extra);
+    out.push('}');
+    pool.clear();
+    (out, fault)
 }
 
 // ------------------------------------------------------------------------------------------
@@ -1202,7 +1342,7 @@ pub fn boundary_bytes(i: u64) -> Vec<u8> {
         _ => { let mut v = vec![0; 3 * wb]; v.push(1); v }
     }
 }
-const BITS: &[usize] = &[0, 1, 63, 64, 65, 127, 128, 129, 191, 192, 193, 255, 256];
+const BITS: &[usize] = &[0, 1, 63, 64, 65, 127, 129, 191, 192, 193, 255, 256];
 const SIZES: &[usize] = &[0, 1, 2, 3, 4, 9, 10, 11];
 fn rnd_mag(rng: &mut Rng, maxw: usize) -> Vec<u8> {
     match rng.below(4) {
@@ -1231,7 +1371,8 @@ pub fn gen_int_history(rng: &mut Rng, kind: &str, nr: usize, len: usize, maxw: u
             let f = *rng.pick(if signed { &["parts", "prim", "negate", "mulsign"][..] } else { &["words", "le", "be", "prim", "dword"][..] });
             json!({"op": "const", "d": d, "f": f, "c": wire_mag(signed && rng.coin(), &rnd_mag(rng, maxw))})
         } else if k < 22 {
-            let n = if rng.below(3) == 0 { rng.below(64 * maxw.min(12) as u64 + 1) as usize } else { *rng.pick(BITS) };
+            // 2 * WORD_BITS is the input of finding F01: kept rare so that it does not mask the rest of too many histories
+            let n = if rng.below(16) == 0 { 2 * Word::BITS as usize } else if rng.below(3) == 0 { rng.below(64 * maxw.min(12) as u64 + 1) as usize } else { *rng.pick(BITS) };
             json!({"op": "ones", "d": d, "n": n})
         } else if k < 50 {
             let op = *rng.pick(&["add", "add", "sub", "sub", "mul", "mul", "div", "rem", "and", "or", "xor"]);
